@@ -1067,6 +1067,55 @@ fn build_extra(thorough: bool) -> Vec<Doc> {
         out.push(x);
     }
 
+    // ---- VCF / BCF whose header lines carry explicit IDX fields (as bcftools writes them; noodles writes none).
+    //      The indices are the implicit ones (PASS = 0, then FILTER / INFO / FORMAT IDs in file order; contigs in
+    //      order), so the records stay valid.
+    {
+        let with_idx = |text: &[u8]| -> Vec<u8> {
+            let mut out = Vec::new();
+            let mut ids: Vec<Vec<u8>> = vec![b"PASS".to_vec()];
+            let mut contigs = 0usize;
+            for line in text.split_inclusive(|&c| c == b'\n') {
+                let kind = [&b"##FILTER=<ID="[..], b"##INFO=<ID=", b"##FORMAT=<ID=", b"##contig=<ID="].into_iter().find(|p| line.starts_with(p));
+                let body_end = line.iter().rposition(|&c| c == b'>');
+                match (kind, body_end) {
+                    (Some(p), Some(e)) => {
+                        let id: Vec<u8> = line[p.len()..].iter().copied().take_while(|&c| c != b',' && c != b'>').collect();
+                        let k = if p.starts_with(b"##contig") {
+                            contigs += 1;
+                            contigs - 1
+                        } else if let Some(k) = ids.iter().position(|x| *x == id) {
+                            k
+                        } else {
+                            ids.push(id);
+                            ids.len() - 1
+                        };
+                        out.extend_from_slice(&line[..e]);
+                        out.extend_from_slice(format!(",IDX={k}").as_bytes());
+                        out.extend_from_slice(&line[e..]);
+                    }
+                    _ => out.extend_from_slice(line),
+                }
+            }
+            out
+        };
+        let v = get("vcf-sites");
+        out.push(make_doc(Format::Vcf, "vcf-sites-idx", "sites", with_idx(&v.bytes), false));
+        let b = get("bcf-sites-f2");
+        let bi = b.inner.as_ref().unwrap();
+        let l_text = walk::le_u32(&bi.bytes, 5).unwrap();
+        let text = &bi.bytes[9..9 + l_text];
+        let nul = text.iter().position(|&c| c == 0).unwrap_or(text.len());
+        let mut t = with_idx(&text[..nul]);
+        t.push(0);
+        let mut stream = bi.bytes[..5].to_vec();
+        stream.extend_from_slice(&(t.len() as u32).to_le_bytes());
+        stream.extend_from_slice(&t);
+        let hdr_end = stream.len();
+        stream.extend_from_slice(&bi.bytes[9 + l_text..]);
+        out.push(make_doc(Format::Bcf, "bcf-sites-idx", "sites", bgzip_at(&stream, &[hdr_end]), false));
+    }
+
     // ---- CSI of a bgzipped SAM (the quick corpus has none)
     if find(&base, "csi-of-samgz-mapped-f2").is_none() {
         let d0 = get("samgz-mapped-f2");
